@@ -376,7 +376,9 @@ class SgzConverter(SgzReader):
                                        u*self.chunk_bytes + (z+1)*self.unit_bytes]
                         outfile.write(new_block)
             self.read_variant_headers()
-            for k, header_array in self.variant_headers.items():
+            # Footer arrays are located by position, in header-word table order (not in the order they were loaded)
+            for k in self.stored_header_keys:
+                header_array = self.variant_headers[k]
                 # Files written after v0.2.1 have each header array padded to 512 bytes: keep the source's convention
                 padding = bytes(-len(header_array.tobytes()) % 512) \
                     if self.file_version > SeismicZfpVersion("0.2.1") else b''
